@@ -31,7 +31,7 @@ use wfcommon::{
 
 use crate::{
     chan::PermissiveChannel,
-    coin::{set_script, tap_clear, tap_take, ScriptedCoin, TapCoin},
+    coin::{events_take, set_script, tap_clear, tap_take, ScriptedCoin, TapCoin},
     common::*,
     real::{by_real_field, evaluate, poly_of_family},
     toy::by_field,
@@ -250,7 +250,9 @@ where
     let options: FriOptions = fri_options(sc);
     let poly: Vec<E> = poly_of_family(4, seed, n / blowup);
     let evals = evaluate::<B, E>(&poly, n);
-    let pr = match prove::<E, H, DefaultRandomCoin<H>>(&options, evals.clone(), nq, draw_domain) {
+    // (the recording coin is the real DefaultRandomCoin plus an event log: same values)
+    let _ = events_take();
+    let pr = match prove::<E, H, TapCoin<H>>(&options, evals.clone(), nq, draw_domain) {
         Ok(p) => p,
         Err(p) => {
             st.skipped += 1;
@@ -265,6 +267,16 @@ where
     tap_clear();
     let honest = verify_strict::<E, H, TapCoin<H>>(pr.proof.clone(), pr.commitments.clone(), &options, n, true_bound, &qe, &pos);
     let alphas: Vec<E> = tap_take().iter().map(|b| decode::<E>(b)).collect();
+    // public-coin schedule of the honest run (prover events up to the first verifier "new"), validated by
+    // spec/fri/FriSchedule.tla: every layer commitment is absorbed before its folding challenge is drawn
+    {
+        let ev = events_take();
+        let split = ev.iter().enumerate().filter(|(_, e)| e.0 == "new").map(|(k, _)| k).nth(1).unwrap_or(ev.len());
+        let js = |s: &[(String, String)]| -> Vec<Value> { s.iter().map(|(e, d)| json!({"e": e, "d": d})).collect() };
+        let coms: Vec<String> = pr.commitments.iter().map(|c| winter_utils::Serializable::to_bytes(c).iter().map(|x| format!("{x:02x}")).collect()).collect();
+        out.emit(&mismatch(i, "schedule", json!({"layers": pr.num_layers, "commitments": coms,
+            "prover": js(&ev[..split]), "verifier": js(&ev[split..])})));
+    }
     if !is_accept(&honest) {
         st.skipped += 1;
         out.emit(&mismatch(i, "skip", json!({"why": "honest proof not accepted", "got": honest})));
